@@ -1,5 +1,7 @@
 import MobiusModel.Presence
+import MobiusModel.PresenceAbort
 import MobiusModel.Generated.Consts
+import MobiusModel.Generated.Recover
 import MobiusModel.Generated.Concurrency
 import MobiusModel.Generated.Outbox
 /-!
@@ -261,5 +263,140 @@ example : ∀ d ∈ (PresWorld.init.after demo).reg.clients, d.announced = true 
 -- the counter wraps: ids 1 and 2 are taken, 0 is skipped
 example : allocId (fun i => i == 1 || i == 2) 65536 65535 = some (65539, 3) := by decide +kernel
 example : allocId (fun i => i == 1) 65536 4294967295 = some (2, 2) := by decide +kernel
+
+-- ------------------------------------------------------------------ wave d: requests that fail half-way
+
+/-- Nothing between a handler and `handleNewConnection` stops a panic (regenerated from source on every run): the
+    only recovery points of packages hotline / internal/mobius are `dontPanic` itself and the two connection entry
+    points that defer it.  Together with `generated_disconnect_deferred` this is why `presAbort` (partial update,
+    then `Disconnect`) is the model of a request whose handler panics. -/
+theorem generated_recover_sites :
+    Generated.recoverSites =
+      ["hotline.dontPanic:recover", "hotline.handleFileTransfer:defer dontPanic", "hotline.handleNewConnection:defer dontPanic"] := by
+  decide
+
+/-- An aborted request (set-client-user-info / Agreed that stored name and icon and then panicked on the Options
+    field, or any handler panic) leaves exactly the world and the notices of a plain disconnect: the half-made
+    change is gone with the user, everybody remaining is sent the user-left notice. -/
+theorem aborted_request_is_a_departure (w : PresWorld) (a : Nat) (c : Client) (hg : w.reg.get a = some c)
+    (nm ic : Option Bytes) :
+    w.stepX (.setInfoAbort a nm ic) = w.step (.disconnect a) ∧
+    w.stepX (.agreedAbort a nm ic) = w.step (.disconnect a) ∧
+    w.stepX (.crash a) = w.step (.disconnect a) ∧
+    (w.step (.disconnect a)).2 =
+      (w.reg.delete c.id).clients.map (fun d => (mkTran 302 d.id [⟨103, be16 c.id⟩], Note.left c.id)) ∧
+    ∀ e ∈ (w.step (.disconnect a)).1.userList, e.id ≠ c.id := by
+  refine ⟨?_, ?_, ?_, ?_, ?_⟩
+  · simp only [PresWorld.stepX, PresWorld.step, hg]
+    exact presAbort_eq_disconnect w c _ (infoPartial_id c nm ic)
+  · simp only [PresWorld.stepX, PresWorld.step, hg]
+    exact presAbort_eq_disconnect w c _ (agreedPartial_id c nm ic)
+  · simp only [PresWorld.stepX, PresWorld.step, hg]
+    exact presAbort_eq_disconnect w c c rfl
+  · simp only [PresWorld.step, hg, presDisconnect]
+  · simp only [PresWorld.step, hg, presDisconnect]
+    exact fetch_after_delete_omits_leaver w.reg c.id
+
+/-- `request_outcome`: after ANY request of a connected user, completed or aborted, either the server's list is
+    unchanged, or the user's new row was sent to everybody else, or the user left and everybody remaining was told. -/
+theorem request_outcome (w : PresWorld) (q : PresReq) (a : Nat) (c : Client) (hq : q.actor? = some a)
+    (hg : w.reg.get a = some c) : Outcome w c (w.stepX q).1 (w.stepX q).2 :=
+  Mobius.request_outcome w q a c hq hg
+
+/-- `Presence.converges` over histories that interleave well-formed events with aborted requests (`ReachX`): in
+    every reachable state with no login half-way, every roster a connected client holds is the server's list. -/
+theorem Presence.converges_with_aborts (w : PresWorld) (h : w.ReachX) (hsettled : ∀ d ∈ w.reg.clients, d.announced = true)
+    (c : Client) (hc : c ∈ w.reg.clients) (r : List Entry) (hv : w.view c.conn = some r) : r = w.userList :=
+  (h.inv.views c hc r hv).eq_userList h.inv.reg hsettled
+
+/-- … and with logins half-way a roster is never wrong about anybody it lists and lists every announced user. -/
+theorem Presence.never_wrong_with_aborts (w : PresWorld) (h : w.ReachX) (c : Client) (hc : c ∈ w.reg.clients)
+    (r : List Entry) (hv : w.view c.conn = some r) :
+    (∀ e ∈ r, e ∈ w.userList) ∧ (∀ d ∈ w.reg.clients, d.announced = true → entryOf d ∈ r) := by
+  have hok := h.inv.views c hc r hv
+  exact ⟨fun e he => by obtain ⟨d, hd, rfl⟩ := hok.sound e he; exact List.mem_map.mpr ⟨d, hd, rfl⟩, hok.complete⟩
+
+private def abortDemo : List PresReq :=
+  [.ok (.connect [1] [65] acc [0, 0]), .ok (.agreed 1 5 (some [0x61]) (some [0, 7]) 0 none), .ok (.fetch 1 6),
+   .ok (.connect [2] [66] acc [0, 0]), .ok (.agreed 2 7 (some [0x62]) (some [0, 9]) 0 none), .ok (.fetch 2 8)]
+
+private theorem abortDemo_reach (tail : List PresReq) (ht : ∀ q ∈ tail, ∃ a nm ic, q = .setInfoAbort a nm ic) :
+    (PresWorld.init.afterX (abortDemo ++ tail)).ReachX := by
+  have step := fun (w : PresWorld) (q : PresReq) (h : w.ReachX) (hok : q.okw w) => PresWorld.ReachX.step w q h hok
+  have base : (PresWorld.init.afterX abortDemo).ReachX := by
+    unfold abortDemo PresWorld.afterX
+    simp only [List.foldl]
+    refine step _ _ (step _ _ (step _ _ (step _ _ (step _ _ (step _ _ PresWorld.ReachX.init ?_) ?_) ?_) ?_) ?_) ?_
+    all_goals exact PresReq.okw_of_okb (by decide +kernel)
+  unfold PresWorld.afterX at base ⊢
+  rw [List.foldl_append]
+  generalize List.foldl (fun w q => (w.stepX q).1) PresWorld.init abortDemo = w0 at base ⊢
+  induction tail generalizing w0 with
+  | nil => exact base
+  | cons q qs ih =>
+    obtain ⟨a, nm, ic, rfl⟩ := ht q (by simp)
+    exact ih (fun q hq => ht q (by simp [hq])) _ (step w0 _ base trivial)
+
+-- user 2 renames itself with a one-byte Options field: it is gone, user 1 was told, user 1's roster is the list
+example : (PresWorld.init.afterX (abortDemo ++ [.setInfoAbort 2 (some [0x7a]) (some [0, 1])])).userList = [⟨1, [0x61], [0, 7], 0⟩] := by
+  decide +kernel
+example : (PresWorld.init.afterX (abortDemo ++ [.setInfoAbort 2 (some [0x7a]) (some [0, 1])])).view 0 =
+    some [⟨1, [0x61], [0, 7], 0⟩] := by decide +kernel
+example : (PresWorld.init.afterX (abortDemo ++ [.setInfoAbort 2 (some [0x7a]) (some [0, 1])])).ReachX :=
+  abortDemo_reach _ (by intro q hq; simp only [List.mem_singleton] at hq; exact ⟨_, _, _, hq⟩)
+
+/-- The other behaviour — the panic is swallowed on the way (seeded change C13d-1), the partial update stays and
+    the session goes on — has a history after which a roster differs from the server's list for good: nobody is
+    half-way, nothing is in flight, user 1 still shows user 2 under its old name and icon. -/
+theorem contained_abort_diverges :
+    ∃ (w : PresWorld) (c c' : Client) (k : Nat),
+      w.ReachX ∧ (∀ d ∈ w.reg.clients, d.announced = true) ∧ w.reg.get 2 = some c ∧ c' = infoPartial c (some [0x7a]) (some [0, 1]) ∧
+      w.view k = some w.userList ∧                                            -- converged before the request
+      (∀ d ∈ (presContained w c c').reg.clients, d.announced = true) ∧       -- still nobody half-way afterwards
+      (presContained w c c').view k ≠ some (presContained w c c').userList := by
+  refine ⟨PresWorld.init.afterX abortDemo, ⟨2, 1, [2], [66], acc, [0x62], [0, 9], 0, [], true⟩, _, 0, ?_, by decide +kernel,
+    by decide +kernel, rfl, by decide +kernel, by decide +kernel, by decide +kernel⟩
+  have := abortDemo_reach [] (by intro q hq; cases hq)
+  simpa using this
+
+-- ------------------------------------------------------------------ wave d: login variants
+
+/-- `login_variants`: for every login request — field 102 absent, present and empty, present and not empty; any
+    account (any-name or not, Name empty or not) — the newcomer is listed under the name the request determines
+    (`loginName`), it is announced by the login itself iff that name is not blank, and then exactly the other
+    connected users are sent its row. -/
+theorem login_variants (w : PresWorld) (l an ac ic : Bytes) (nf : Option Bytes) (r' : Registry) (c : Client)
+    (ha : w.reg.add (newPresClient l an ac (loginName an ac nf) ic ((loginName an ac nf).length != 0)) = some (r', c))
+    (hinv : w.reg.Inv) :
+    (w.step (loginEv l an ac nf ic)).1.reg = r' ∧ c ∈ r'.clients ∧ c.name = loginName an ac nf ∧
+    (c.announced = true ↔ loginName an ac nf ≠ []) ∧
+    (w.step (loginEv l an ac nf ic)).2 =
+      if loginName an ac nf ≠ [] then (r'.clients.filter (·.id != c.id)).map (changeTo 301 changeFieldsA c) else [] :=
+  Mobius.login_variants w l an ac ic nf r' c ha hinv
+
+/-- A login the server could not announce is announced by its `Agreed`: every other connected user is sent the
+    row; from then on the user counts as announced (`Presence.converges` asks for nothing else). -/
+theorem agreed_announces (w : PresWorld) (a r : Nat) (nm ic : Option Bytes) (o : Nat) (au : Option Bytes) (c : Client)
+    (hg : w.reg.get a = some c) :
+    (∀ d ∈ (w.step (.agreed a r nm ic o au)).1.reg.clients, d.id ≠ c.id →
+      ∃ p ∈ (w.step (.agreed a r nm ic o au)).2, p.1.to = d.id ∧ p.2 = Note.change (entryOf (agreedClient c nm ic o au))) ∧
+    (w.step (.agreed a r nm ic o au)).1.reg.get c.id = some (agreedClient c nm ic o au) ∧
+    (agreedClient c nm ic o au).announced = true :=
+  Mobius.agreed_announces w a r nm ic o au c hg
+
+private def noAny : Bytes := [0, 0, 0, 0, 0, 0x80, 0, 0]   -- send-private-message only
+-- the twelve variants: (field 102 absent / empty / "x") × (any-name or not) × (account Name "A" / empty) → the name
+example : [loginName [65] acc none, loginName [65] acc (some []), loginName [65] acc (some [0x78]),
+           loginName [] acc none, loginName [] acc (some []), loginName [] acc (some [0x78]),
+           loginName [65] noAny none, loginName [65] noAny (some []), loginName [65] noAny (some [0x78]),
+           loginName [] noAny none, loginName [] noAny (some []), loginName [] noAny (some [0x78])] =
+          [[], [], [0x78], [], [], [0x78], [], [65], [65], [], [], []] := by decide
+-- an empty name field on an account that may not choose its name: announced at once under the account's Name …
+example : ((PresWorld.init.afterX abortDemo).step (loginEv [3] [65] noAny (some []) [0, 3])).2.map (fun p => (p.1.to, p.2)) =
+    [(1, Note.change ⟨3, [65], [0, 3], 0⟩), (2, Note.change ⟨3, [65], [0, 3], 0⟩)] := by decide +kernel
+-- … on an any-name account: listed with a blank name, nobody told, until its Agreed
+example : ((PresWorld.init.afterX abortDemo).step (loginEv [3] [65] acc (some []) [0, 3])).2 = [] := by decide +kernel
+example : ((PresWorld.init.afterX abortDemo).step (loginEv [3] [65] acc (some []) [0, 3])).1.userList.map (·.id) = [1, 2, 3] := by
+  decide +kernel
 
 end Mobius.C13
